@@ -411,14 +411,24 @@ impl Em<'_> {
     }
 
     /// block type for a construct: mostly empty, sometimes a single i32 result, rarely a function type
-    fn pick_bt(&mut self) -> (BT, u8) {
+    /// (block type, number of i32 results, number of i32 parameters)
+    fn pick_bt(&mut self) -> (BT, u8, u8) {
         if self.rich && self.rng.chance(1, 5) {
-            (BT::Val(VT::I32), 1)
+            (BT::Val(VT::I32), 1, 0)
         } else if self.rich && self.rng.chance(1, 12) {
             let t = self.types.intern(&[], &[VT::I32, VT::I32]);
-            (BT::Func(t), 2)
+            (BT::Func(t), 2, 0)
+        } else if self.rich && self.rng.chance(1, 12) {
+            // parameterised constructs: the operand is on the stack when the body is entered
+            if self.rng.chance(1, 2) {
+                let t = self.types.intern(&[VT::I32], &[VT::I32]);
+                (BT::Func(t), 1, 1)
+            } else {
+                let t = self.types.intern(&[VT::I32], &[]);
+                (BT::Func(t), 0, 1)
+            }
         } else {
-            (BT::Empty, 0)
+            (BT::Empty, 0, 0)
         }
     }
 
@@ -503,11 +513,17 @@ impl Em<'_> {
             }
             34..=47 => {
                 // block
-                let (bt, ar) = self.pick_bt();
+                let (bt, ar, np) = self.pick_bt();
+                for _ in 0..np {
+                    self.expr32(1);
+                }
                 let opener = self.out.len() as u32;
                 self.out.push(Ins::Block(bt));
                 self.labels.push(Lbl { is_loop: false, arity: ar, func_results: false });
                 let m_entry = self.mark_opt();
+                for _ in 0..np {
+                    self.out.push(Ins::Drop);
+                }
                 self.body(nest + 1);
                 for _ in 0..ar {
                     self.expr32(1);
@@ -600,12 +616,18 @@ impl Em<'_> {
             58..=75 => {
                 // if / if-else
                 let with_else = self.rng.chance(1, 2);
-                let (bt, ar) = if with_else { self.pick_bt() } else { (BT::Empty, 0) };
+                let (bt, ar, np) = if with_else { self.pick_bt() } else { (BT::Empty, 0, 0) };
+                for _ in 0..np {
+                    self.expr32(1);
+                }
                 self.cond();
                 let opener = self.out.len() as u32;
                 self.out.push(Ins::If(bt));
                 self.labels.push(Lbl { is_loop: false, arity: ar, func_results: false });
                 let m_entry = self.mark_opt();
+                for _ in 0..np {
+                    self.out.push(Ins::Drop);
+                }
                 self.body(nest + 1);
                 for _ in 0..ar {
                     self.expr32(1);
@@ -616,6 +638,9 @@ impl Em<'_> {
                     else_idx = Some(self.out.len() as u32);
                     self.out.push(Ins::Else);
                     m_else_entry = Some(self.mark_opt());
+                    for _ in 0..np {
+                        self.out.push(Ins::Drop);
+                    }
                     self.body(nest + 1);
                     for _ in 0..ar {
                         self.expr32(1);
